@@ -490,37 +490,7 @@ func init() {
 			c.check(theme != nil && dataDir != nil && dominates(theme, dataDir), "loadConfig: theme.yml before data/", p.pos(lc.Pos()), "theme.yml is loaded first, data/ files override it", "theme.yml is not loaded before the data/ directory: data/*.yml no longer overrides theme.yml")
 			// Load: front-matter assigned on the copy after new()
 			ld := p.MustFn("(*vuego.template).Load")
-			var newCall ssa.Instruction
-			var assigns []ssa.CallInstruction
-			for _, site := range callsIn(ld) {
-				switch calleeName(site.Common()) {
-				case "(*vuego.template).new":
-					newCall = site
-				case "(*vuego.template).Assign", "(*vuego.Stack).Set":
-					assigns = append(assigns, site)
-				}
-			}
-			okLoad := false
-			for _, assign := range assigns {
-				if newCall == nil || !dominates(newCall, assign) {
-					continue
-				}
-				recv := assign.Common().Args[0]
-				if calleeName(assign.Common()) == "(*vuego.Stack).Set" {
-					// tpl.stack.Set(k, v): the receiver is the stack field of the fresh template
-					f := loadedField(recv)
-					ld, isLoad := recv.(*ssa.UnOp)
-					if f == nil || !fieldIs(f, "stack") || !isLoad {
-						continue
-					}
-					recv = ld.X.(*ssa.FieldAddr).X
-				}
-				for _, o := range p.origins(recv, OriginOpts{}) {
-					if o == newCall.(ssa.Value) {
-						okLoad = true
-					}
-				}
-			}
+			okLoad := p.loadAssignsFrontMatter()
 			c.check(okLoad, "Load: front-matter assigned on top of the copied parent data", p.pos(ld.Pos()), "tpl := t.new(); tpl.Assign(front-matter)", "Load does not assign the file's front-matter onto the fresh copy of the parent's data")
 		},
 	})
@@ -780,4 +750,42 @@ func (p *Prog) derivedFrom(v, src ssa.Value, depth int) bool {
 		return false
 	}
 	return walk(v, 0)
+}
+
+// loadAssignsFrontMatter: Template.Load binds the loaded file's front-matter in the fresh template's own
+// scope (tpl := t.new(); tpl.Assign / tpl.stack.Set), after the copy of the parent's data was made.
+func (p *Prog) loadAssignsFrontMatter() bool {
+	ld := p.MustFn("(*vuego.template).Load")
+	var newCall ssa.Instruction
+	var assigns []ssa.CallInstruction
+	for _, site := range callsIn(ld) {
+		switch calleeName(site.Common()) {
+		case "(*vuego.template).new":
+			newCall = site
+		case "(*vuego.template).Assign", "(*vuego.Stack).Set":
+			assigns = append(assigns, site)
+		}
+	}
+	okLoad := false
+	for _, assign := range assigns {
+		if newCall == nil || !dominates(newCall, assign) {
+			continue
+		}
+		recv := assign.Common().Args[0]
+		if calleeName(assign.Common()) == "(*vuego.Stack).Set" {
+			// tpl.stack.Set(k, v): the receiver is the stack field of the fresh template
+			f := loadedField(recv)
+			ld, isLoad := recv.(*ssa.UnOp)
+			if f == nil || !fieldIs(f, "stack") || !isLoad {
+				continue
+			}
+			recv = ld.X.(*ssa.FieldAddr).X
+		}
+		for _, o := range p.origins(recv, OriginOpts{}) {
+			if o == newCall.(ssa.Value) {
+				okLoad = true
+			}
+		}
+	}
+	return okLoad
 }
